@@ -273,7 +273,7 @@ def ev(a, env):
         return abs(x), sx
     if op == "sgn":
         # piecewise constant; within rounding distance of the kink the value is undecided
-        if abs(x) <= mpf(10) ** -9 * (1 + sx):
+        if abs(x) <= mpf(10) ** -3 * (1 + sx):
             return MP.sign(x), mpf("inf")
         return MP.sign(x), mpf(0)
     if op == "hyp":
@@ -333,8 +333,15 @@ def d(a, name):
     if is_zero(du):
         return ZERO
     u = a[1]
-    if op in WRAPS:
-        raise NotImplementedError("angle-wrap nodes are for value-only workloads")
+    if op == "asinsin":
+        # piecewise linear: slope sign(cos u); FormaK's symbolic form cos(u)/sqrt(1 - sin(u)**2) loses
+        # accuracy like eps/cos(u)**2 towards the kinks, which the 1e-3 dead zone of sgn keeps out
+        return mul(["sgn", ["cos", u]], du)
+    if op == "acoscos":
+        return mul(["sgn", ["sin", u]], du)
+    if op == "atantan":
+        # slope 1 away from the poles of tan (ev marks the poles unusable through the value's scale)
+        return mul(["mul", ["sgn", ["cos", u]], ["sgn", ["cos", u]]], du)
     if op == "sin":
         return mul(["cos", u], du)
     if op == "cos":
